@@ -525,6 +525,42 @@ def gen_move_down(scn, rng):
     return h
 
 
+def gen_frozen_renew(scn, rng):
+    """A full cell of leased instances with distinct priorities; then each server in turn is frozen, its reboot date is moved so close that no lease can be renewed on it, and every instance asks for a
+    renewal; a cycle follows.  An instance taken off a server that is not up may evict its way in only past
+    the instances BEHIND it."""
+    anyp = list(range(1, len(scn['aprofiles']) + 1))
+    apps = list(scn['apps'])
+    rng.shuffle(apps)
+    h = [('Submit', [a, rng.choice(anyp)]) for a in apps]
+    prios = rng.sample([1, 2, 3, 5, 7, 9, 20, 50], len(apps)) if len(apps) <= 8 else None
+    for k, a in enumerate(apps):
+        h.append(('SetPrio', [a, prios[k] if prios else rng.choice([1, 3, 5, 7, 9, 50])]))
+    h.append(('Cycle', []))
+    now = 0
+    up = sorted(s for s, k in scn['server_init'].items() if k)
+    rng.shuffle(up)
+    for s in (up + up)[:rng.choice([2, 3, 4])]:
+        # the renewal is asked for while the server is up (the flag is only ever set on a placed instance of
+        # an up server); the server is frozen before the next cycle serves it
+        # (ONE pending renewal per cycle: an instance whose renewal is pending and which another instance
+        # evicts earlier in the same cycle trips `assert app.server` of the unchanged code - observed, not
+        # judged: nothing in the code base but the scheduler's own restore path ever sets the flag)
+        h.append(('Renew', [rng.choice(apps)]))
+        h.append(('Freeze', [s]))
+        t = rng.choice([1, 1, 2])
+        now += t
+        h.append(('Tick', [t]))
+        h.append(('SetVu', [s, now + rng.choice([1, 2, 3])]))
+        h.append(('Cycle', []))
+        if rng.random() < 0.5:
+            h.append(('Up', [s]))
+            h.append(('SetVu', [s, now + 20]))
+            h.append(('Cycle', []))
+    h.append(('Cycle', []))
+    return h
+
+
 def gen_random(scn, rng, depth, weights=None):
     """A random event history that respects the events' guards by tracking a
     light shadow (which apps/servers exist).  Ends with a Cycle.  `weights`
